@@ -275,7 +275,7 @@ def _call(ctx, cls, key, info, fn):
     """Invoke a signer; the installed contract judges the result.  RSZeroError
     is a legal outcome for explicit/entropy nonces (C03 judges when)."""
     _state["info"] = info
-    ctx.case(cls, key=key)
+    ctx.case(cls, key=key, sample={k: v for k, v in info.items() if k != "repro"} if ctx.want(cls) else None)
     try:
         fn()
     except ecdsa.ecdsa.RSZeroError:
